@@ -7,6 +7,7 @@
 
 use crate::alphabet as al;
 use crate::ctx::Ctx;
+use crate::exec::Obs;
 use serde_json::{json, Value};
 
 /// Upper end of the sweep (inclusive).
@@ -73,6 +74,8 @@ pub fn length_sweep(ctx: &mut Ctx) {
     every_operator_as_element_probes(ctx);
     hash_twin_probes(ctx);
     relation_probes(ctx);
+    path_twin_probes(ctx);
+    twin_sequence_probes(ctx);
     stale_output_probes(ctx);
     if prop == "C02" || prop == "C06" || prop == "C04" {
         return;
@@ -743,6 +746,9 @@ pub fn edited_in_place_probes(ctx: &mut Ctx) {
 
 pub fn effects_probes(ctx: &mut Ctx) {
     edited_in_place_probes(ctx);
+    path_twin_probes(ctx);
+    twin_sequence_probes(ctx);
+    environment_probes(ctx);
     if ctx.mine() {
         // one parsed rule applied to many elements: what is computed for one element (a key, a path, a converted
         // number) is not remembered for the next
@@ -1732,6 +1738,258 @@ pub fn relation_probes(ctx: &mut Ctx) {
             for (r, d) in cases {
                 ctx.check("relation:same-reference", &r, &d);
             }
+        }
+    }
+}
+
+fn insert_path(root: &mut Value, segs: &[String], val: Value) -> bool {
+    let mut cur = root;
+    for (i, s) in segs.iter().enumerate() {
+        let m = match cur.as_object_mut() {
+            Some(m) => m,
+            None => return false,
+        };
+        if i + 1 == segs.len() {
+            if m.contains_key(s) {
+                return false;
+            }
+            m.insert(s.clone(), val);
+            return true;
+        }
+        cur = m.entry(s.clone()).or_insert_with(|| json!({}));
+    }
+    false
+}
+
+/// Different paths whose segment lists collapse to ONE text under a joiner (`alphabet::join_colliding_paths`):
+/// every subset of the readings present in the data (each under its own value), the keys together in one call
+/// (key lists of missing / missing_some in every order, several `var`s in one rule, per-element lookups) and one
+/// right after the other in separate calls. Found missing by R21-C12-1 (a lookup remembered under the joined text
+/// of its parent path).
+pub fn path_twin_probes(ctx: &mut Ctx) {
+    let prop = ctx.prop.clone();
+    if !["C04", "C11", "C12", "C13", "C14", "C17"].contains(&prop.as_str()) {
+        return;
+    }
+    for group in al::join_colliding_paths() {
+        let segs: Vec<Option<Vec<String>>> = group.iter().map(|p| crate::refmodel::split_path(p)).collect();
+        for mask in 0u32..(1 << group.len()) {
+            if !ctx.mine() {
+                continue;
+            }
+            let mut d = json!({});
+            for (i, s) in segs.iter().enumerate() {
+                if mask & (1 << i) != 0 {
+                    if let Some(s) = s {
+                        insert_path(&mut d, s, json!(format!("at:{}", i)));
+                    }
+                }
+            }
+            let n = group.len();
+            match prop.as_str() {
+                "C12" => {
+                    for a in 0..n {
+                        for b in 0..n {
+                            ctx.edge();
+                            ctx.check("path-twins:missing", &json!({"missing": [group[a], group[b]]}), &d);
+                            ctx.check("path-twins:missing:array-form", &json!({"missing": [[group[b], group[a], "zz"]]}), &d);
+                            for t in 1..=2 {
+                                ctx.check("path-twins:missing_some", &json!({"missing_some": [t, [group[a], group[b]]]}), &d);
+                            }
+                            for c in 0..n {
+                                ctx.check("path-twins:missing", &json!({"missing": [group[a], group[b], group[c]]}), &d);
+                                ctx.check("path-twins:missing_some", &json!({"missing_some": [3, [group[a], group[b], group[c]]]}), &d);
+                            }
+                        }
+                    }
+                }
+                "C13" | "C14" => {
+                    let rows = json!({"rows": [d.clone(), {}, d.clone()], "d": d.clone()});
+                    for a in 0..n {
+                        for b in 0..n {
+                            ctx.edge();
+                            let e = json!({"cat": [{"var": [group[a], "-"]}, "|", {"var": [group[b], "-"]}]});
+                            if prop == "C13" {
+                                ctx.check("path-twins:map", &json!({"map": [{"var": "rows"}, e]}), &rows);
+                                ctx.check("path-twins:filter", &json!({"filter": [{"var": "rows"}, {"and": [{"var": group[a]}, {"var": group[b]}]}]}), &rows);
+                                ctx.check("path-twins:reduce", &json!({"reduce": [{"var": "rows"}, {"cat": [{"var": "accumulator"}, {"var": [format!("current.{}", group[a]), "-"]}, {"var": [format!("current.{}", group[b]), "-"]}]}, ""]}), &rows);
+                            } else {
+                                ctx.check("path-twins:some", &json!({"some": [{"var": "rows"}, {"and": [{"var": group[a]}, {"!": [{"var": group[b]}]}]}]}), &rows);
+                                ctx.check("path-twins:all", &json!({"all": [{"var": "rows"}, {"or": [{"var": group[a]}, {"var": group[b]}]}]}), &rows);
+                                ctx.check("path-twins:none", &json!({"none": [{"var": "rows"}, {"===": [{"var": group[a]}, {"var": group[b]}]}]}), &rows);
+                            }
+                        }
+                    }
+                }
+                "C17" => {
+                    // one call after the other on this thread, each with its own rule
+                    for round in 0..2 {
+                        for a in 0..n {
+                            ctx.edge();
+                            let k = if round == 0 { group[a] } else { group[n - 1 - a] };
+                            ctx.check("path-twins:sequence", &json!({"var": [k, "dflt"]}), &d);
+                            ctx.check("path-twins:sequence", &json!({"missing": [k]}), &d);
+                            ctx.check("path-twins:sequence", &json!({"missing_some": [1, [k, "zz"]]}), &d);
+                        }
+                    }
+                }
+                _ => {
+                    for a in 0..n {
+                        for b in 0..n {
+                            ctx.edge();
+                            ctx.check("path-twins:var-pair", &json!({"merge": [{"var": group[a]}, {"var": [group[b], "dflt"]}]}), &d);
+                            ctx.check("path-twins:var-pair", &json!({"cat": [{"var": group[b]}, "|", {"var": group[a]}, "|", {"var": group[b]}]}), &d);
+                            ctx.check("path-twins:var-pair", &json!({"if": [{"var": group[a]}, {"var": group[b]}, {"var": [group[b], "else"]}]}), &d);
+                            ctx.check("path-twins:var-pair:computed", &json!({"==": [{"var": {"cat": [group[a]]}}, {"var": {"cat": [group[b]]}}]}), &d);
+                        }
+                    }
+                }
+            }
+        }
+    }
+}
+
+/// Spellings that a normalising key would conflate (`alphabet::normalisation_twin_groups`; also the confusable
+/// string pairs) converted ONE RIGHT AFTER THE OTHER on this thread, in both orders and back again, under every
+/// coercion family and as lookup keys: each call is judged against R, so whatever an earlier call left behind
+/// under a shared key shows in the later one. Found missing for C17 by R21-C17-2 (a per-thread conversion memo
+/// keyed on the lower-cased text: "Infinity" then "infinity").
+pub fn twin_sequence_probes(ctx: &mut Ctx) {
+    let prop = ctx.prop.clone();
+    if !["C07", "C09", "C10", "C17"].contains(&prop.as_str()) {
+        return;
+    }
+    let rules_for = |s: &str| -> Vec<Value> {
+        let all = vec![
+            json!({">": [s, 1]}), json!({"<": [s, 1]}), json!({"<=": [1, s]}), json!({"==": [s, 255]}), json!({"==": [s, 1]}), json!({"==": [s, 0]}), json!({"!=": [s, 1000]}), json!({"==": [[s], 1]}),
+            json!({"-": [s]}), json!({"-": [s, 0]}), json!({"*": [s, 1]}), json!({"+": [s]}), json!({"/": [s, 1]}), json!({"%": [s, 7]}), json!({"max": [s, 0]}), json!({"min": [s, 2]}),
+            json!({"<": [0, s, 1e300]}), json!({"!!": [s]}), json!({"in": [s, ["1", 1, "0xff", "Infinity"]]}), json!({"===": [s, "1"]}), json!({"cat": [s]}), json!({"var": [s, "dflt"]}), json!({"missing": [s]}),
+        ];
+        match prop.as_str() {
+            "C07" => all.into_iter().filter(|r| r.get("==").is_some() || r.get("!=").is_some()).collect(),
+            "C09" => all.into_iter().filter(|r| r.get("<").is_some() || r.get(">").is_some() || r.get("<=").is_some()).collect(),
+            "C10" => all.into_iter().filter(|r| ["-", "*", "+", "/", "%", "max", "min"].iter().any(|k| r.get(*k).is_some())).collect(),
+            _ => all,
+        }
+    };
+    let d = json!({"1": "one", "Infinity": "inf-key", "0xff": "hex-key", "": "empty-key", "1e3": "exp-key", "true": "t", "NaN": "n", "12px": "p", ".5": "half"});
+    let mut groups: Vec<Vec<String>> = al::normalisation_twin_groups().into_iter().map(|g| g.into_iter().map(|s| s.to_string()).collect()).collect();
+    for (a, b) in al::confusable_pairs() {
+        groups.push(vec![a, b]);
+    }
+    for g in groups {
+        if !ctx.mine() {
+            continue;
+        }
+        for i in 0..g.len() {
+            for j in 0..g.len() {
+                if i == j {
+                    continue;
+                }
+                ctx.edge();
+                // a, b, a - every family; then through the data instead of the rule
+                for s in [&g[i], &g[j], &g[i]] {
+                    for r in rules_for(s) {
+                        ctx.check("twin-sequence:literal", &r, &d);
+                    }
+                }
+                if prop == "C17" {
+                    for s in [&g[i], &g[j], &g[i]] {
+                        let dd = json!({"x": s, "xs": [s, g[i], g[j]]});
+                        for r in [json!({">": [{"var": "x"}, 1]}), json!({"-": [{"var": "x"}, 0]}), json!({"*": [{"var": "x"}, 1]}), json!({"==": [{"var": "x"}, 1]}), json!({"map": [{"var": "xs"}, {"-": [{"var": ""}]}]}), json!({"filter": [{"var": "xs"}, {">": [{"var": ""}, 0]}]}), json!({"map": [{"var": "xs"}, {"*": [{"var": ""}, 1]}]})] {
+                            ctx.check("twin-sequence:data", &r, &dd);
+                        }
+                    }
+                }
+            }
+        }
+    }
+}
+
+/// The result of a call does not depend on the process environment: for every environment variable of
+/// `alphabet::env_names` (standard names + every name the tree under test mentions next to an environment
+/// accessor) and every value of `alphabet::env_values`, a fixed list of calls - every operator family, the
+/// coercions, lookups, deep rules built in memory (nesting 100 .. 1500, beyond what a JSON text can carry) and
+/// long operand lists - returns what it returns with the variable unset (an oracle-free law; the shallow calls are
+/// judged against R as well), before and after the current directory changes. Found missing by R21-C17-1 (a depth
+/// limit derived from RUST_MIN_STACK, read on every call).
+pub fn environment_probes(ctx: &mut Ctx) {
+    let null = Value::Null;
+    let d = json!({"a": {"b": [1, "2", null]}, "s": "h\u{e9}llo", "n": "0x10", "xs": [3, 1, 2]});
+    let mut calls: Vec<(Value, Value)> = vec![
+        (json!({"var": "a.b.1"}), d.clone()), (json!({"missing": ["a.b.7", "s", "zz"]}), d.clone()), (json!({"+": [{"var": "n"}, "12px", 1.5]}), d.clone()), (json!({"-": [{"var": "n"}, " 1 "]}), d.clone()),
+        (json!({"<": [1, "1e1", 1e300]}), null.clone()), (json!({"==": [[1], "1"]}), null.clone()), (json!({"cat": [1.0, null, [1, [2]], {}]}), null.clone()), (json!({"substr": [{"var": "s"}, -3, 2]}), d.clone()),
+        (json!({"map": [{"var": "xs"}, {"*": [{"var": ""}, 2]}]}), d.clone()), (json!({"reduce": [{"var": "xs"}, {"max": [{"var": "current"}, {"var": "accumulator"}]}, 0]}), d.clone()), (json!({"all": [{"var": "s"}, {"!=": [{"var": ""}, "z"]}]}), d.clone()),
+        (json!({"if": [{"var": "zz"}, 1, {"in": ["l", {"var": "s"}]}, "found", "no"]}), d.clone()), (json!({"log": {"var": "s"}}), d.clone()), (json!({"+": ["x"]}), null.clone()), (json!({"==": []}), null.clone()), (json!({"merge": [[1], 2, [[3]]]}), null.clone()),
+        (json!({"max": (0..300).map(|i| json!(i)).collect::<Vec<_>>()}), null.clone()), (json!({"cat": (0..1000).map(|i| json!(i % 10)).collect::<Vec<_>>()}), null.clone()),
+    ];
+    let shallow = calls.len();
+    for depth in [100usize, 300, 600, 1000, 1500] {
+        let mut r = json!({"var": "s"});
+        let mut e = json!({"+": ["x"]});
+        let mut l = json!(1);
+        for i in 0..depth {
+            // (lazy operators re-parse their operands level by level - quadratic in the depth - so the deepest rules
+            // are chains of eager operators)
+            r = match (i % 4, depth <= 300) { (0, _) => json!({"!": [r]}), (1, _) => json!({"cat": [r]}), (2, true) => json!({"if": [true, r, 0]}), (3, true) => json!({"and": [1, r]}), (2, false) => json!({"!!": [r]}), _ => json!({"merge": [r]}) };
+            e = json!({"!": [e]});
+            l = json!([l]);
+        }
+        calls.push((r, d.clone()));
+        calls.push((e, null.clone()));
+        calls.push((json!({"cat": [l.clone()]}), null.clone()));
+        calls.push((json!({"var": ""}), l));
+    }
+    // baseline: environment as the check found it, the variables of the alphabet unset
+    let names = al::env_names();
+    let saved: Vec<(String, Option<std::ffi::OsString>)> = names.iter().map(|n| (n.clone(), std::env::var_os(n))).collect();
+    let cwd = std::env::current_dir().ok();
+    let mut units: Vec<(String, Option<&'static str>)> = Vec::new();
+    for n in &names {
+        for v in al::env_values() {
+            units.push((n.clone(), Some(v)));
+        }
+    }
+    units.push(("(current directory = /)".into(), None));
+    units.push(("(current directory = /tmp)".into(), None));
+    let mut base: Vec<Obs> = Vec::new();
+    for (name, val) in units {
+        if !ctx.mine() {
+            continue;
+        }
+        for n in &names {
+            std::env::remove_var(n);
+        }
+        if base.is_empty() {
+            base = calls.iter().map(|(r, dd)| ctx.exec(r, dd)).collect();
+        }
+        match val {
+            Some(v) => std::env::set_var(&name, v),
+            None => {
+                let _ = std::env::set_current_dir(if name.contains("/tmp") { "/tmp" } else { "/" });
+            }
+        }
+        for (i, (r, dd)) in calls.iter().enumerate() {
+            ctx.edge();
+            let o = if i < shallow { ctx.check("environment:judged", r, dd) } else { ctx.exec(r, dd) };
+            if o.out != base[i].out || o.log != base[i].log {
+                let shown = if crate::ctx::depth_of(r) > 60 { json!(format!("<rule nested {} levels: {}...>", crate::ctx::depth_of(r), &r.to_string()[..60])) } else { r.clone() };
+                let shown_d = if crate::ctx::depth_of(dd) > 60 { json!("<nested data>") } else { dd.clone() };
+                ctx.law_fail("law:environment-independence", &shown, &json!({"data": shown_d, "environment": format!("{}={:?}", name, val)}), format!("as with the variable unset: {}", base[i].show().chars().take(200).collect::<String>()), o.show().chars().take(200).collect());
+            }
+            ctx.note_outcome("environment:law", o.class());
+        }
+        if let Some(c) = &cwd {
+            let _ = std::env::set_current_dir(c);
+        }
+        for n in &names {
+            std::env::remove_var(n);
+        }
+    }
+    for (n, v) in saved {
+        match v {
+            Some(v) => std::env::set_var(&n, v),
+            None => std::env::remove_var(&n),
         }
     }
 }
